@@ -13,7 +13,7 @@ from checks.common import run_harness
 def run(ctx):
     res = vlib.Result(ctx, "exploration")
     q = ctx.quick
-    evs, _, _ = run_harness(ctx, "pub", "TestVerifRequests", {"random": 400 if q else 4000}, timeout=1500)
+    evs, _, _ = run_harness(ctx, "pub", "TestVerifRequests", {"random": 400 if q else 4000, "rounds": 4 if q else 25}, timeout=1500)
     bad, r = vlib.judge(ctx, "T_Request", "T_Request.cfg", evs)
     res.add_tlc(r)
     case = None
